@@ -985,7 +985,7 @@ func (e *Env) predCall(pd *PredDecl, args []Expr) TV {
 	vc := e.vc
 	rt := vc.eng.resolveType(pd.Result, vc.eng.pkgByPath(pd.Pkg, e.pkg))
 	// predicates over references read the heap: expand them in the caller's state
-	if !pd.Rec {
+	if !pd.Rec && !pd.Uninterp {
 		stateDep := false
 		for _, p := range pd.Params {
 			switch vc.eng.resolveType(p.T, vc.eng.pkgByPath(pd.Pkg, e.pkg)).Underlying().(type) {
@@ -1048,6 +1048,15 @@ func (vc *VC) declarePred(pd *PredDecl) string {
 		env.names[p.Name] = TV{term: pn, typ: t}
 	}
 	rt := vc.eng.resolveType(pd.Result, ppkg)
+	if pd.Uninterp {
+		var sorts []string
+		for _, p := range pd.Params {
+			sorts = append(sorts, vc.sortOf(vc.eng.resolveType(p.T, ppkg)))
+		}
+		vc.decl("f:"+name, fmt.Sprintf("(declare-fun %s (%s) %s)", name, strings.Join(sorts, " "), vc.sortOf(rt)))
+		vc.trust("uninterpreted spec function %s: only assumed contracts and requires clauses constrain it", pd.Name)
+		return name
+	}
 	if vc.opaque[pd.Name] {
 		// opaque in this unit: only the lemmas in use say anything about it
 		var sorts []string
